@@ -284,7 +284,7 @@ def path_src(path, fields=("x", "y")):
         elif p[0] == "k":
             out += "[%s]" % p[1][1]
         elif p[0] == "f":
-            out += "[%s]" % fields[p[1]]
+            out += ("::%s" if len(p) > 2 else "[%s]") % fields[p[1]]      # a third component selects the symbol-access spelling
         elif p[0] == "s":
             out += "[%s:%s]" % ("" if p[1] is None else p[1], "" if p[2] is None else p[2])
     return out
@@ -577,6 +577,9 @@ def menu_struct():
         ("assign", a, [f_(0)], lit(L(["f", "3ff0000000000000"]), "[1.0]")), ("assign", c, [i_(0), f_(1)], lit(["f", "4000000000000000"], "2.0")), ("assign", a, [f_(1)], VA), ("assign", a, [f_(0)], VB),
         ("op", c, [i_(0), f_(0)], "append", ONE), ("assign", c, [i_(1), f_(1)], L8), ("op", a, [f_(1)], "+", ONE), ("op", b, [f_(0)], "++", lit(L(I(6)), "[6]")),
         ("swap", a, [], b, []), ("swap", a, [f_(0)], a, [f_(1)]), ("swap", a, [f_(0)], b, [f_(0)]), ("swap", a, [f_(0), i_(0)], a, [f_(0), i_(-1)]), ("capture", a, []), ("capture", a, [f_(0)]),
+        # the same fields through the symbol-access spelling a::x
+        ("op", a, [("f", 0, "sym")], "append", lit(I(5), "5")), ("assign", a, [("f", 0, "sym"), i_(0)], SEVEN), ("assign", a, [("f", 1, "sym")], VA),
+        ("op", c, [i_(0), ("f", 0, "sym")], "append", ONE), ("swap", a, [("f", 0, "sym")], a, [f_(1)]), ("op", b, [("f", 0, "sym")], "++", lit(L(I(6)), "[6]")),
         ("swap", c, [i_(0), f_(1)], c, [i_(-2), f_(1)]), ("consume", c, a), ("pop", a, [f_(0)]),
         ("remove", a, [f_(0), i_(0)]), ("every", c, [("s", 0, 2), f_(1)], SEVEN), ("tuple", a, b, b, a),
     ]
@@ -730,7 +733,7 @@ def judge(case, rs):
     if after == RAISE:
         if st == "ok":
             return [Violation(sig + " result=no-error", "%s: the copy-on-assignment model rejects the last statement, the interpreter accepted it; vars now %s" % (trail, json.dumps(dump_values(r["d"]))[:300]), "raise", "ok")]
-        return []
+        return failed_aftermath(stmt, before, r, sig, trail)
     if st != "ok":
         if st in ("panic", "abort", "hang"):
             return [Violation(sig + " result=" + st, "%s -> %s %s" % (trail, st, r.get("e")), "ok", st)]
@@ -752,6 +755,61 @@ def judge(case, rs):
         elif not same_value(gv[1][1], after.get("k")):
             out.append(Violation(sig + " result=captured-value-changed", "%s: the closure that captured a VALUE now returns %s, it captured %s" % (trail, json.dumps(gv[1][1])[:200], json.dumps(norm(after.get("k")))[:200]), norm(after.get("k")), gv[1][1]))
     return out
+
+
+def pure_rv(rv):
+    return rv[0] in ("lit", "var") or (rv[0] in ("list", "dict") and all(pure_rv(x) for x in rv[1:]))
+
+
+def failed_aftermath(stmt, before, r, sig, trail):
+    """A statement that raised may leave the slot(s) it addressed in an unspecified state (documented: the target of an
+    op-assignment is null while the operator runs and stays null when it raises). Everything else - the other variables,
+    and the parts of the target variable the statement did not address - holds what it held before."""
+    if r.get("st") not in ("throw", "control") or "d" not in r:
+        return []
+    k = stmt[0]
+    if k not in ("op", "everyop", "every", "assign"):
+        return []
+    rv = stmt[4] if k in ("op", "everyop") else stmt[3]
+    if not pure_rv(rv):
+        return []
+    got = dump_values(r["d"])
+    tgt, path = stmt[1], stmt[2]
+    for v in ("a", "b", "c"):
+        if v != tgt and not same_value(got[v], before[v]):
+            return [Violation(sig + " result=failed-statement-changed-other-variable var=%s" % v,
+                              "%s raised, and %s is now %s (was %s)" % (trail, v, json.dumps(got[v])[:200], json.dumps(norm(before[v]))[:200]), norm(before[v]), got[v])]
+    if not path:
+        return []
+    old, new = norm(before[tgt]), got[tgt]
+    bad = None
+    if kind(old) in ("l", "v") and path[0][0] in ("i", "s"):
+        n = len(old[1])
+        if path[0][0] == "i":
+            i = path[0][1]
+            addressed = {i if i >= 0 else n + i}
+        else:
+            lo, hi, _ = slice(path[0][1], path[0][2]).indices(n)
+            addressed = set(range(lo, hi))
+        if kind(new) != kind(old) or len(new[1]) != n:
+            bad = "the variable is no longer a sequence of %d elements" % n
+        else:
+            for j in range(n):
+                if j not in addressed and not same_value(new[1][j], old[1][j]):
+                    bad = "element %d, which the statement does not address, changed" % j
+                    break
+    elif kind(old) == "d" and path[0][0] == "k":
+        if kind(new) != "d":
+            bad = "the variable is no longer a dict"
+        else:
+            key = json.dumps(norm(path[0][1]), sort_keys=True)
+            o = {json.dumps(e[0], sort_keys=True): e[1] for e in old[1] if json.dumps(e[0], sort_keys=True) != key}
+            g = {json.dumps(e[0], sort_keys=True): e[1] for e in new[1] if json.dumps(e[0], sort_keys=True) != key}
+            if resort(o) != resort(g):
+                bad = "entries under other keys changed"
+    if bad:
+        return [Violation(sig + " result=failed-statement-destroyed-unaddressed-parts", "%s raised: %s; %s is now %s (was %s)" % (trail, bad, tgt, json.dumps(new)[:200], json.dumps(old)[:200]), old, new)]
+    return []
 
 
 def tally(case, rs, extra):
